@@ -5,7 +5,43 @@ use std::collections::{HashMap, HashSet};
 use xot::{NameId, NamespaceId, PrefixId, Xot};
 
 use crate::engine::{Ctx, Knobs, Plan, PlanKind, Property, Src, Tier, Verdict};
-use crate::model::XML_NS;
+use crate::gen::{self, render};
+use crate::model::{ANode, QName, XML_NS};
+
+/// Walk the parsed tree and the tree the text denotes in parallel and collect
+/// (expanded name the renderer wrote, NameId xot assigned). Returns false when
+/// the shapes differ (that is C02's business, not C08's).
+fn collect_names(xot: &Xot, node: xot::Node, exp: &ANode, out: &mut Vec<(QName, NameId)>) -> bool {
+    match exp {
+        ANode::Document(ch) => {
+            let kids: Vec<xot::Node> = xot.children(node).take(10_000).collect();
+            if kids.len() != ch.len() {
+                return false;
+            }
+            kids.iter().zip(ch.iter()).all(|(k, c)| collect_names(xot, *k, c, out))
+        }
+        ANode::Element(e) => {
+            let el = match xot.element(node) {
+                Some(el) => el,
+                None => return false,
+            };
+            out.push((e.name.clone(), el.name()));
+            let keys: Vec<NameId> = xot.attributes(node).keys().take(10_000).collect();
+            if keys.len() != e.attrs.len() {
+                return false;
+            }
+            for (k, (q, _)) in keys.iter().zip(e.attrs.iter()) {
+                out.push((q.clone(), *k));
+            }
+            let kids: Vec<xot::Node> = xot.children(node).take(10_000).collect();
+            if kids.len() != e.children.len() {
+                return false;
+            }
+            kids.iter().zip(e.children.iter()).all(|(k, c)| collect_names(xot, *k, c, out))
+        }
+        _ => true,
+    }
+}
 
 pub struct C08;
 
@@ -353,7 +389,7 @@ impl Property for C08 {
             let op = if force_bulk && step == 0 {
                 6
             } else {
-                src.weighted(&[6, 5, 5, 3, 2, 2, if force_bulk { 2 } else { 1 }])
+                src.weighted(&[6, 5, 5, 2, 2, 2, if force_bulk { 2 } else { 1 }, 4])
             };
             let r: Result<(), String> = (|| {
                 match op {
@@ -415,6 +451,53 @@ impl Property for C08 {
                         if xot.name("only-in-clone").is_some() {
                             return Err("name registered in a clone is visible in the original".into());
                         }
+                    }
+                    7 => {
+                        // implicit registration by parsing a generated document with
+                        // shadowed / aliased prefixes: every name must get the id of
+                        // the expanded name the text denotes
+                        let mut o = gen::TreeOpts::xml(10);
+                        o.alpha = gen::Alpha::Tiny;
+                        o.attr_alpha = gen::Alpha::Tiny;
+                        o.comments = false;
+                        o.pis = false;
+                        let t = gen::gen_element_tree(src, &o);
+                        let r = render::render(src, &t, render::Style { prolog: false, cdata: false, line_ends: false, ..render::Style::rich() })
+                            .map_err(|e| format!("harness: renderer: {}", e))?;
+                        log.push(format!("parse({:?})", r.text));
+                        kinds[0] = true;
+                        let doc = match xot.parse(&r.text) {
+                            Ok(d) => d,
+                            Err(_) => return Ok(()), // acceptance is C02's business
+                        };
+                        let mut names = vec![];
+                        if collect_names(&xot, doc, &r.expected, &mut names) {
+                            for (q, id) in names {
+                                let (gl, gn) = xot.name_ns_str(id);
+                                if gl != q.local || gn != q.ns {
+                                    return Err(format!(
+                                        "the name written as {} was given an id that resolves to ({:?},{:?})",
+                                        q.show(), gl, gn
+                                    ));
+                                }
+                                let key = (q.local.clone(), q.ns.clone());
+                                match m.nm.get(&key) {
+                                    Some(old) if *old != id => {
+                                        return Err(format!("parsing registered {} under a second id", q.show()));
+                                    }
+                                    Some(_) => repeat = true,
+                                    None => {
+                                        m.nm.insert(key, id);
+                                    }
+                                }
+                                let nsid = xot.namespace(&q.ns).ok_or_else(|| format!("namespace {:?} used in a parsed document is not registered", q.ns))?;
+                                m.ns.entry(q.ns.clone()).or_insert(nsid);
+                                if xot.name_ns(&q.local, nsid) != Some(id) {
+                                    return Err(format!("name_ns does not find {} after parsing it", q.show()));
+                                }
+                            }
+                        }
+                        m.check_all(&xot, "after parsing a generated document")?;
                     }
                     _ => {
                         let k = [10usize, 300, 70_000][src.weighted(&[2, 2, if force_bulk { 6 } else { 1 }])];
